@@ -82,6 +82,7 @@ type table struct {
 	Sessions  sessionFacts `json:"sessions"`
 	Limiter   limiterFacts `json:"limiter"`
 	Life      lifeFacts    `json:"life"`
+	Mux       muxFacts     `json:"mux"`
 }
 
 var (
@@ -285,6 +286,8 @@ func main() {
 		}
 	}
 	dedupe(&tab)
+	resolveMux(&tab.Mux)
+	scanDeps(cfg.Env, cfg.Overlay, &tab.Mux)
 	if tab.RegEmpty == nil && tab.RegMethod == nil {
 		fatal("home.httpRegister not found: the registration idiom has changed")
 	}
@@ -485,6 +488,7 @@ func scanBody(p *packages.Package, info *types.Info, body ast.Node, fname string
 		}
 		sv := server{What: types.TypeString(t, nil) + " literal", Pos: pos(x.Pos()), Func: p.PkgPath + "." + fname,
 			Leaves: []string{"http.DefaultServeMux"}}
+		var handlerExpr ast.Expr
 		for _, el := range x.Elts {
 			kv, ok := el.(*ast.KeyValueExpr)
 			if !ok {
@@ -494,17 +498,21 @@ func scanBody(p *packages.Package, info *types.Info, body ast.Node, fname string
 				switch id.Name {
 				case "Handler":
 					sv.Leaves = leaves(kv.Value, 0, map[types.Object]bool{})
+					handlerExpr = kv.Value
 				case "Addr":
 					sv.Addr = exprText(kv.Value, 0)
 				}
 			}
 		}
 		tab.Servers = append(tab.Servers, sv)
+		addMuxRow(info, assigns, &tab.Mux, sv.What, sv.Pos, sv.Func, sv.Addr, handlerExpr,
+			"the literal has no Handler: net/http serves http.DefaultServeMux")
 	}
 	listenCall := func(call *ast.CallExpr, name string) {
 		if len(call.Args) < 2 {
 			return
 		}
+		addMuxRow(info, assigns, &tab.Mux, "http."+name, pos(call.Pos()), p.PkgPath+"."+fname, exprText(call.Args[0], 0), call.Args[len(call.Args)-1], "")
 		tab.Servers = append(tab.Servers, server{What: "http." + name, Leaves: leaves(call.Args[len(call.Args)-1], 0, map[types.Object]bool{}),
 			Pos: pos(call.Pos()), Func: p.PkgPath + "." + fname, Addr: exprText(call.Args[0], 0)})
 	}
@@ -515,9 +523,27 @@ func scanBody(p *packages.Package, info *types.Info, body ast.Node, fname string
 		switch x := n.(type) {
 		case *ast.CallExpr:
 			scanCall(p, info, x, fname, inHTTPRegister, ifStack, tab, listenCall)
+			// new(http.Server): a server without a literal (nil Handler)
+			if id, ok := ast.Unparen(x.Fun).(*ast.Ident); ok && id.Name == "new" && len(x.Args) == 1 {
+				if _, isBuiltin := info.Uses[id].(*types.Builtin); isBuiltin {
+					if tv, ok := info.Types[x.Args[0]]; ok && tv.IsType() && isServerType(tv.Type) {
+						tab.Servers = append(tab.Servers, server{What: "new(" + types.TypeString(tv.Type, nil) + ")",
+							Leaves: []string{"http.DefaultServeMux"}, Pos: pos(x.Pos()), Func: p.PkgPath + "." + fname, Addr: "?"})
+						addMuxRow(info, assigns, &tab.Mux, "new("+types.TypeString(tv.Type, nil)+")", pos(x.Pos()), p.PkgPath+"."+fname, "?", nil,
+							"a zero Server has a nil Handler: net/http serves http.DefaultServeMux")
+					}
+				}
+			}
 		case *ast.AssignStmt:
 			if len(x.Lhs) == len(x.Rhs) {
 				for i, l := range x.Lhs {
+					// srv.Handler = h
+					if sel, ok := ast.Unparen(l).(*ast.SelectorExpr); ok && sel.Sel.Name == "Handler" && isServerType(info.TypeOf(sel.X)) {
+						tab.Servers = append(tab.Servers, server{What: "assignment to the Handler of a " + types.TypeString(info.TypeOf(sel.X), nil),
+							Leaves: leaves(x.Rhs[i], 0, map[types.Object]bool{}), Pos: pos(x.Pos()), Func: p.PkgPath + "." + fname, Addr: "?"})
+						addMuxRow(info, assigns, &tab.Mux, "assignment to the Handler of a "+types.TypeString(info.TypeOf(sel.X), nil),
+							pos(x.Pos()), p.PkgPath+"."+fname, "?", x.Rhs[i], "")
+					}
 					if c, ok := ast.Unparen(x.Rhs[i]).(*ast.CallExpr); ok && isFunc(calleeObj(info, c.Fun), "net/http", "NewServeMux") {
 						tab.Muxes = append(tab.Muxes, muxSite{Func: p.PkgPath + "." + fname, Target: types.ExprString(l), Pos: pos(c.Pos())})
 					}
@@ -527,6 +553,17 @@ func scanBody(p *packages.Package, info *types.Info, body ast.Node, fname string
 				}
 			}
 		case *ast.ValueSpec:
+			for _, nm := range x.Names {
+				// var srv http.Server: a server without a literal (nil Handler)
+				if t := info.TypeOf(nm); len(x.Values) == 0 && t != nil && isServerType(t) {
+					if _, isPtr := types.Unalias(t).(*types.Pointer); !isPtr {
+						tab.Servers = append(tab.Servers, server{What: "variable of type " + types.TypeString(t, nil) + " without a literal",
+							Leaves: []string{"http.DefaultServeMux"}, Pos: pos(nm.Pos()), Func: p.PkgPath + "." + fname, Addr: "?"})
+						addMuxRow(info, assigns, &tab.Mux, "variable of type "+types.TypeString(t, nil)+" without a literal", pos(nm.Pos()),
+							p.PkgPath+"."+fname, "?", nil, "a zero Server has a nil Handler: net/http serves http.DefaultServeMux")
+					}
+				}
+			}
 			for i, nm := range x.Names {
 				if i < len(x.Values) && isRegisterFunc(info.TypeOf(nm)) {
 					tab.Bindings = append(tab.Bindings, classifySrc(info, x.Values[i]))
@@ -569,6 +606,7 @@ func scanBody(p *packages.Package, info *types.Info, body ast.Node, fname string
 		return true
 	}
 	ast.Inspect(body, visit)
+	scanMuxWrites(p, info, body, fname, &tab.Mux)
 }
 
 func isHandlerish(t types.Type) bool {
@@ -825,9 +863,13 @@ func writeOutputs(verif string, tab *table) {
 	}
 	writeIfChanged(filepath.Join(gen, "Routes.v"), []byte(b.String()))
 	writeIfChanged(filepath.Join(gen, "AuthPins.v"), []byte(coqLogin(&tab.Login, strings.TrimSpace(string(rev)))+coqSessionKeys(&tab.Sessions)+coqLimiter(&tab.Limiter)))
+	writeIfChanged(filepath.Join(gen, "RoutesMux.v"), []byte(coqMux(&tab.Mux, fmt.Sprintf(
+		"(* Generated by tools/routes from %s at %s; working tree changes: %d line(s).  Do not edit. *)\n",
+		repo, strings.TrimSpace(string(rev)), strings.Count(string(st), "\n")))))
 	js, _ := json.MarshalIndent(tab, "", " ")
 	writeIfChanged(filepath.Join(gen, "routes.json"), js)
-	fmt.Printf("routes: %d routes, %d bindings, %d muxes, %d servers\n", len(tab.Routes), len(tab.Bindings), len(tab.Muxes), len(tab.Servers))
+	fmt.Printf("routes: %d routes, %d bindings, %d muxes, %d servers, %d mux rows, %d packages registering on the default mux (%d files)\n",
+		len(tab.Routes), len(tab.Bindings), len(tab.Muxes), len(tab.Servers), len(tab.Mux.Rows), len(tab.Mux.Registrants), tab.Mux.DepsScanned)
 }
 
 func writeIfChanged(path string, data []byte) {
